@@ -438,6 +438,8 @@ mut('C08-num-classes-truthiness', 'C08', D + 'gmm.py', "        if initializatio
 # ---- R-USE positive example: an option that is accepted and dropped
 mut('C08-eigenvalue-floor-dropped', 'C08', D + 'cacgmm.py', "            hermitize=hermitize,\n            covariance_norm=covariance_norm,\n            eigenvalue_floor=eigenvalue_floor,\n        )\n        return CACGMM",
     "            hermitize=hermitize,\n            covariance_norm=covariance_norm,\n        )\n        return CACGMM", expect='unused', props=['C08'])
+# ---- R-ARGNAME / R-STALE positive examples
+mut('C13-refchannel-target-noise-crossed', 'C13', 'pb_bss/extraction/beamformer.py', "            mat, target_psd_matrix, noise_psd_matrix, eps=eps)", "            mat, noise_psd_matrix, target_psd_matrix, eps=eps)", expect='R-ARGNAME', props=['C13', 'C11'])
 # ---- whole refactorings written by independent sub-agents (14-20 behaviour-preserving edits each, verified bit-identical on
 #      600-900 inputs per patch): every check must stay silent on each of them
 for r, what in (('R1', 'mixture_model_utils / cacgmm / cACG'), ('R2', 'cwmm / cbmm / Watson / Bingham / distribution.utils'), ('R3', 'gmm / gaussian / vMF / gcacgmm / vmfcacgmm'),
